@@ -149,6 +149,53 @@ pub fn draw_cfg(profile: &str, thorough: bool, rng: &mut Rng) -> RunCfg {
                 nd.cleanup_fmt = false;
             }
         }
+        "seq" => {
+            gen.w_map = 0;
+            gen.embed_pct = 0;
+            gen.subdoc_pct = 0;
+            gen.rich_any = false;
+            gen.seq_only = true;
+            if gen.w_text + gen.w_array + gen.w_xml == 0 {
+                gen.w_text = 2;
+                gen.w_array = 2;
+            }
+            pick_faults(
+                rng,
+                &mut [
+                    (&mut cfg.w_dup, 2, 12),
+                    (&mut cfg.w_drop, 2, 10),
+                    (&mut cfg.w_hold, 2, 8),
+                    (&mut cfg.w_sync, 3, 12),
+                    (&mut cfg.w_gc, 2, 8),
+                    (&mut cfg.w_partition, 1, 5),
+                ],
+            );
+        }
+        "lww" => {
+            // a few hot keys on 1-3 maps (root, nested, XML attributes); partitions make concurrency
+            gen.w_text = 0;
+            gen.w_array = *rng.pick(&[0, 0, 1]);
+            gen.w_map = 4;
+            gen.w_xml = *rng.pick(&[0, 1, 2]);
+            gen.embed_pct = 0;
+            gen.fmt_pct = 0;
+            gen.subdoc_pct = 0;
+            gen.rich_any = false;
+            gen.n_keys = rng.range(2, 4) as u32;
+            gen.del_pct = *rng.pick(&[15, 30, 45]);
+            gen.clear_pct = *rng.pick(&[0, 5, 15]);
+            pick_faults(
+                rng,
+                &mut [
+                    (&mut cfg.w_dup, 2, 12),
+                    (&mut cfg.w_drop, 2, 10),
+                    (&mut cfg.w_hold, 2, 8),
+                    (&mut cfg.w_sync, 3, 12),
+                    (&mut cfg.w_gc, 2, 8),
+                    (&mut cfg.w_partition, 2, 8),
+                ],
+            );
+        }
         "svsync" => {
             cfg.w_sync = rng.range(8, 20) as u32;
             cfg.w_special = rng.range(3, 10) as u32;
